@@ -336,3 +336,10 @@ def Srv.init (now : Nat) (ips : List Nat) (nc burst : Nat) : Srv :=
     env := { cl := fun _ => { ExpiresAt := some (now + ttl30) } } }
 
 end Tunnox.C03
+
+namespace Tunnox.C03
+/-- the state after a history -/
+def runState (s : Srv) : List Event → Srv
+  | [] => s
+  | e :: es => runState (step s e).1 es
+end Tunnox.C03
